@@ -361,7 +361,7 @@ _ROUND7 = {
     "sel_rotate_component": (["C19"], {"SEL.rotate-component": 1}),
     "own_resolver_input": (["C12", "C06"], {"OWN.resolver-input": 2}),
     "ord_repetition_state": (["C05"], {"ORD.repetition-state": 1}),
-    "prov_rdkit_source": (["C18"], {"PROV.rdkit-source": 2}),
+    "prov_rdkit_source": (["C18"], {"PROV.rdkit-source": 3}),
     "det_level_state": (["C06", "C02", "C10"], {"DET.level-state": 1}),
     "idx_branch_stop": (["C04"], {"IDX.branch-stop": 1}),
     "exc_cast_spellings": (["C14"], {"EXC.cast-spellings": 1}),
